@@ -126,8 +126,12 @@ def gen_mux(rng, tier, long_run=False):
             continue
         times.append(t)
         t += cadence if cadence != 'vfr' else rng.randrange(2, 40000)
-    delay = rng.choice([0, max(abs(slots[i] - i) for i in range(nv))]) if reorder else 0
     step = cadence if isinstance(cadence, int) else (11261 if cadence == 'ntsc24' else 4504 if cadence == 'ntsc60' else 9000)
+    delay = rng.choice([0, max(abs(slots[i] - i) for i in range(nv))]) if reorder else 0
+    # presentation ahead of decoding (open GOP, leading pictures shown before the first decoded frame is decoded): possible
+    # when the recording does not start at zero
+    if (not long_run) and t0 >= 3 * step and rng.random() < 0.35:
+        delay = rng.choice([-1, -2, -3])
     vcalls = []
     maxsz = 8 if long_run else (60 if tier == 'quick' else 200)
     for i in range(nv):
@@ -564,6 +568,18 @@ def gen_metalayout(rng, tier):
                 calls.append({'op': 'wa', 'pts': fin(6400), 'data': audio_frame(rng, ac, 7)})
             calls.append({'op': 'fin', 'how': 'in_place_stats'})
             out.append({'cfg': cfg, 'calls': calls})
+    # histories without any sample / with a single sample, every codec, with and without an audio track and metadata
+    for vc in ('h264', 'h265', 'av1', 'vp9'):
+        for ac in ('none', 'aac', 'opus'):
+            for m in ({}, {'title': list(b'empty')}):
+                for shape in ('empty', 'one'):
+                    cfg = base_cfg(vc, ac)
+                    cfg['facets'] = F
+                    if m:
+                        cfg['meta'] = m
+                    calls = [] if shape == 'empty' else [{'op': 'wv', 'pts': fin(0), 'data': video_frame(rng, vc, True, 4), 'key': True}]
+                    calls.append({'op': 'fin', 'how': 'in_place_stats'})
+                    out.append({'cfg': cfg, 'calls': calls})
     return out
 
 
@@ -823,6 +839,20 @@ def header_mutations(rng, tier):
     seeds.append(adts(rng, 3, crc=True))
     seeds += [[0x78, 1, 2], [0x7b, 0x02, 1, 2], [0x03, 0x80 | 5, 9, 9]]
     out = []
+    # length-field extremes: leb128 sizes of 1..11 groups (values up to and beyond 2^64) after every OBU header form,
+    # VP9 var-uints of 1..6 groups, Opus code-3 counts, with and without bytes following
+    for hdr in ([0x0a], [0x12], [0x32], [0x0e, 0x00], [0x2a]):
+        for k in range(0, 11):
+            for fill in (0xff, 0x80):
+                for last in (0x00, 0x01, 0x7f):
+                    for tail in ([], [0x00], AV1_SEQ[:4]):
+                        out.append(hdr + [fill] * k + [last] + tail)
+    for k in range(0, 7):
+        for last in (0x01, 0x7f):
+            out.append([0x49, 0x83, 0x42, 0x00, 0x00] + [0xff] * k + [last] + [0x81] * k + [last, 0x00, 0x00])
+    for cnt in (0x00, 0x01, 0x3f, 0x40, 0x7f, 0x80, 0xbf, 0xc1, 0xff):
+        out.append([0x03, cnt])
+        out.append([0xff, cnt, 0xff, 0xff, 0xfe, 1, 2, 3])
     for sd in seeds:
         for n in range(len(sd) + 1):
             out.append(sd[:n])
